@@ -7,7 +7,28 @@ from .sinks import SINK_TRAIT, SEND_CALLS, is_whole_param, adapters, buffered_si
 SS = 'cadence::sinks::core::SocketStats'
 SOCK_SEND = ('std::net::udp::UdpSocket::send_to', 'std::os::unix::net::datagram::UnixDatagram::send_to',
              'std::net::udp::UdpSocket::send', 'std::os::unix::net::datagram::UnixDatagram::send')
-UNBUFFERED = [('cadence::sinks::udp::UdpMetricSink', 'addr', 'socket'), ('cadence::sinks::unix::UnixMetricSink', 'path', 'socket')]
+UNBUFFERED_ADTS = [('cadence::sinks::udp::UdpMetricSink', 'core::net::socket_addr::SocketAddr', 'std::net::udp::UdpSocket'),
+                   ('cadence::sinks::unix::UnixMetricSink', 'std::path::PathBuf', 'std::os::unix::net::datagram::UnixDatagram')]
+
+
+def _field_of_type(cad, adt, ty):
+    hits = [f['name'] for f in adt_fields(cad, adt) or [] if f['ty'] == ty or type_head(f['ty']) == ty]
+    return hits[0] if len(hits) == 1 else None
+
+
+def unbuffered(cad):
+    """(adt, destination field, socket field) - fields found by their types"""
+    return [(adt, _field_of_type(cad, adt, dty), _field_of_type(cad, adt, sty)) for adt, dty, sty in UNBUFFERED_ADTS]
+
+
+def stats_update(cad):
+    """the SocketStats method that classifies a send result: takes an io::Result<usize>"""
+    return [b for b in cad.all_bodies if b.impl_self and type_head(b.impl_self) == SS and b.impl_trait is None and b.def_kind == 'AssocFn'
+            and any(b.locals[i].replace(' ', '').startswith('core::result::Result<usize,std::io::error::Error>') for i in range(1, b.arg_count + 1))]
+
+
+def stats_field(cad, adt):
+    return _field_of_type(cad, adt, SS)
 
 
 def _emit_of(cad, adt):
@@ -20,14 +41,14 @@ def _emit_of(cad, adt):
 
 def rule_unbuffered(ctx, rep, rid='R1'):
     cad = ctx.cad
-    for adt, dest_field, sock_field in UNBUFFERED:
+    for adt, dest_field, sock_field in unbuffered(cad):
         name = adt.rsplit('::', 1)[-1]
         b, items = _emit_of(cad, adt)
         if b is None:
             rep.anchor_lost(rid, 'impl MetricSink for %s' % name)
             continue
         rep.analysed(b)
-        upd_path = [x.path for x in cad.method(SS, 'update')]
+        upd_path = [x.path for x in stats_update(cad)]
         b = inl(cad, b, never=lambda x: x.path in upd_path)
         T = Terms(b)
         sends = [bi for bi, t in b.calls() if callee_is(t, *SOCK_SEND) and not b.blocks[bi]['cleanup']]
@@ -74,20 +95,23 @@ def rule_unbuffered(ctx, rep, rid='R1'):
             rep.ob(rid, '%s::%s/destination-from-argument' % (name, cb.name), okc, cb.where(), 'destination = the constructor argument (first resolved address / the path), socket = the given socket' if okc else 'constructor stores %s' % msg)
     # frame: nobody else writes addr/path (fields private, only aggregates in constructors): stores through pointers
     offenders = []
+    protected = set(x for _, d_, s_ in unbuffered(cad) for x in (d_, s_) if x)
     for b in cad.all_bodies:
         if not (b.file.endswith('udp.rs') or b.file.endswith('unix.rs')):
             continue
         for bi, blk in enumerate(b.blocks):
             for si, s in enumerate(blk['stmts']):
                 if s['k'] == 'assign' and any(e[0] == 'deref' for e in s['place']['p']) and \
-                        any(e[0] == 'field' and e[2] in ('addr', 'path', 'socket') for e in s['place']['p']):
+                        any(e[0] == 'field' and e[2] in protected for e in s['place']['p']):
                     offenders.append((b, bi, si))
     rep.ob(rid, 'destination-never-reassigned', not offenders, offenders[0][0].where(offenders[0][1], offenders[0][2]) if offenders else '', 'addr/path/socket are set once, at construction')
 
 
 def rule_get_addr(ctx, rep, rid='R2'):
     cad = ctx.cad
-    bs = [b for b in cad.all_bodies if b.path.startswith('cadence::sinks::udp::get_addr') and b.def_kind == 'Fn']
+    # the private resolver: the function of udp.rs that calls ToSocketAddrs::to_socket_addrs
+    bs = [b for b in cad.all_bodies if b.file.endswith('sinks/udp.rs') and b.def_kind in ('Fn', 'AssocFn') and
+          any(callee_is(t, 'ToSocketAddrs>::to_socket_addrs', 'core::net::socket_addr::ToSocketAddrs::to_socket_addrs', 'std::net::socket_addr::ToSocketAddrs::to_socket_addrs') for _, t in b.calls())]
     b = one(rep, rid, 'udp::get_addr', bs)
     if b is None:
         return
@@ -112,7 +136,7 @@ def rule_pairing(ctx, rep, rid='R1'):
     on every path."""
     cad = ctx.cad
     n = 0
-    upd = cad.method(SS, 'update')
+    upd = stats_update(cad)
     if len(upd) != 1:
         rep.anchor_lost(rid, 'SocketStats::update')
         return
@@ -152,7 +176,7 @@ def rule_pairing(ctx, rep, rid='R1'):
                 ln = uct[2][2]
                 okl = ln[0] == 'call' and ln[1].endswith('::len') and strip_views(ln[2][0]) == strip_views(sct[2][1])
                 rep.ob(rid, '%s/dropped-size-is-the-datagram-size' % inst, okl, b.where(u), 'update(.., len of the very buffer sent)' if okl else 'update is given %s as size of a %s datagram' % (fmt(ln)[:60], fmt(sct[2][1])[:60]))
-                oks = self_field_name(uct[2][0]) == 'stats'
+                oks = self_field_name(uct[2][0]) is not None and self_field_name(uct[2][0]) == stats_field(cad, type_head(b.impl_self or ''))
                 rep.ob(rid, '%s/uses-own-stats' % inst, oks, b.where(u), 'recorded in self.stats')
     rep.floor(rid, 'socket send sites', n, 4)
     # who may call incr_*
@@ -193,7 +217,7 @@ def C_must_pass(b, start, targets):
 
 def rule_classification(ctx, rep, rid='R2'):
     cad = ctx.cad
-    upd = cad.method(SS, 'update')
+    upd = stats_update(cad)
     if len(upd) != 1:
         return
     b = upd[0]
@@ -304,7 +328,7 @@ def rule_shared_counters(ctx, rep, rid='R3'):
                 ads = [y for y in walk(dict(agg[3]).get(field)) if y[0] == 'adt' and y[1] == adapter]
                 ok = False
                 if len(ads) == 1:
-                    ast = dict(ads[0][3]).get('stats')
+                    ast = dict(ads[0][3]).get(stats_field(cad, adapter))
                     ok = ast is not None and term_callee_is(ast, 'as core::clone::Clone>::clone') and peel(ast[2][0]) == own and \
                         term_callee_is(own, 'as core::default::Default>::default')
                 rep.ob(rid, '%s::%s/adapter-shares-sink-stats' % (name, cb.name), ok, cb.where(), 'adapter.stats = sink.stats.clone()' if ok else 'the adapter counts into different cells than the ones stats() reads')
@@ -321,7 +345,7 @@ def rule_shared_counters(ctx, rep, rid='R3'):
         sb = cad.bodies[items['stats']]
         rts = ret_terms(Terms(sb), [0])
         ok = len(rts) == 1 and (term_callee_is(list(rts)[0], 'as core::convert::Into>::into') or term_callee_is(list(rts)[0], 'as core::convert::From>::from')) and \
-            self_field_name(list(rts)[0][2][0]) == 'stats'
+            self_field_name(list(rts)[0][2][0]) == stats_field(cad, adt)
         k += 1
         rep.ob(rid, '%s/stats-is-snapshot-of-own-counters' % name, ok, sb.where(), 'stats() = (&self.stats).into()')
     rep.floor(rid, 'socket sinks with stats()', k, 4)
